@@ -53,6 +53,21 @@ CHECKS.update({
    note='Trusted: as C01. Edges inside branches no data can reach (e.g. a if X > X else b) are dead in the script and exempt from the is-read clause.'),
 })
 
+CHECKS.update({
+ 'C10': dict(cat='model_checking', ref='4/C10', tech='symbolic execution of VectorContainer.__getitem__/__setitem__/_resolve_period_slice/_locate_period_in_span(+fallback) with symbolic span labels, requested labels, step and value; per-path comparison with a first-match position map',
+   text='Bounded symbolic model checking of label addressing: for list / object-ndarray (fallback locator) spans of symbolic integer labels, range, int64/str ndarrays, str and mixed-hashable lists (length 1..3, 5 thorough) every path over the equality pattern of labels and requests is explored; get/set by label, inclusive label slices with symbolic step 1..n+1 and open ends, KeyError iff absent, frame of writes, and write-then-read agreement across attribute/key/position/label/slice paths are decided per path on symbolic cells.',
+   note='Trusted: symx proxies through real NumPy object arrays. pandas index types outside; ndarray spans assumed duplicate-free (the locator refuses duplicates).'),
+ 'C12': dict(cat='model_checking', ref='4/C12', tech='symbolic execution of VectorContainer.reindex / BaseModel.reindex over symbolic old and new span labels (all equality patterns); concrete typed arrays with marker values compared per path with a position-map + fill-table oracle',
+   text='Bounded symbolic model checking of reindex: old and new spans of 0..3 (4) symbolic integer labels each - z3 explores every equality pattern within and between them (overlap, disjoint, permuted, shrunk, extended, repeated) - crossed with float/int/bool/str/status/iterations series, fill_value / per-variable / unknown fills x strict, containers and solved or unsolved models; values of matching periods, fills of new periods, dtypes, order, lag/lead settings, attributes, unchanged original and KeyError under strict are asserted on every path.',
+   note='Trusted: symx; the fill table mirrors NumPy casting of the fill to the variable dtype. pandas mixin reindex outside; independence of the result is only probed (C11 N/A).'),
+ 'C16': dict(cat='model_checking', ref='4/C16', tech='symbolic execution of fsic.functions shift/lag/lead/diff/dlog with UNBOUNDED symbolic shift and symbolic fill (np.roll / slice assignment stand-ins), z3 equality with the definition per position; symbolic execution of VectorContainer.eval over symbolic span labels for a catalogue of expressions',
+   text='Helpers: for vectors of 0..4 (6) symbolic cells z3 proves lag/lead/shift/diff/dlog equal to their definitions at every position for ALL integer shifts p, d (d >= 0) and any fill, and that the input is unchanged. eval: 15 expression shapes (positional and backticked label indexes/slices, arithmetic, helpers, locals precedence, undefined names) over spans with symbolic labels are compared with the directly computed value on every path; container and helper table unchanged.',
+   note='Trusted: np.roll stand-in (ite over p mod n) and SArr slice assignment with symbolic bounds (Python clamping rules); eval runs on real NumPy object arrays. Expression dimension enumerated.'),
+ 'C18': dict(cat='model_checking', ref='4/C18', tech='symbolic twin execution: aliased model vs canonical twin over symbolic operands (values, positions, labels, slice bounds) for every enumerated alias map; z3 equality of all cells and storage-key comparison per path',
+   text='For every acyclic alias map over 3 variables and up to 2 (3) alias names (many-to-one, chains, self-maps), each constructed under a 5 s watchdog, 12 operations (reads, whole/sequence/key/position/label/label-slice writes, label and slice reads, replace_values, an _evaluate that uses the alias, constructor keywords) are run through the alias and through the canonical name from the same symbolic state; outcomes, every cell and the set of storage keys must agree on every path.',
+   note='Honest note: alias topologies are enumerated; the solver decides the operand dimension only. to_dataframe(use_aliases) / PREFERRED_NAMES (pandas) outside the claim.'),
+})
+
 NOT_APPLICABLE = [
  ('C11', 'Independence of copies is a statement about object identity in the CPython heap; there is no input value to make symbolic, so a solver has nothing to decide (pointer-rich heaps are a weak target of the technique).'),
  ('C13', "Quantifies over strings only; everything it depends on sits behind CPython's re engine (look-ahead, \\b, lazy quantifiers, alternative priority), str.format and exec, none of which can be executed symbolically here (z3 regex theory lacks them; CrossHair's regex model is unsound on term_re and times out on split_equations)."),
